@@ -36,6 +36,12 @@ CLAIMED = {
  "C04": dict(cat="other", technique="CrossHair on the real scan_file, canonical vs. transformed token stream (symbolic insertion counts, inserted comment/whitespace tokens) and real-lexer tokens of commented source text",
              text="Metamorphic, solver-quantified over all insertion counts simultaneously; comment placement patterns are fixed families (everywhere / column-1 / mixed styles) and the source-text variants are lexed by the real lexer so lexer artefacts (zero-length tokens) are in scope.",
              ref="DESIGN.md 3/C04"),
+ "C03": dict(cat="other", technique="CrossHair: token-soup BMC of the real scan_file, solver-chosen single-edit mutants of canonical programs, check_file/_read_file on symbolic bytes, check_command over an in-memory FS; z3 reachability on the real header DFAs",
+             text="Compositional and bounded: every token sequence of length N over the language's predicate-induced alphabet with every layout; every single-edit mutant (any position, any replacement class) of several canonical programs; every byte string <= 3; a pool of working directories x ways of naming. Ambiguity errors are excluded by C15 (all depths, all tokens).",
+             ref="DESIGN.md 3/C03"),
+ "C05": dict(cat="other", technique="CrossHair: pairing units over symbolic integer ranges (unbounded endpoints), framed token soups and solver-chosen mutants through the real scan_file with every C05 clause asserted, _analyze_file with symbolic measurement list",
+             text="Unit layer is unbounded in all range endpoints (<= 2 headers, <= 3 blocks, every ordering/nesting); the end-to-end layers are bounded (2-3 symbolic tokens inside a function frame, single edits of canonical programs).",
+             ref="DESIGN.md 3/C05"),
 }
 NA = {}
 def main():
